@@ -3,6 +3,9 @@
 # Regenerates the build overlay from /repo's current working tree, rebuilds the
 # checker against it (hooks on: -tags verif) in a private scratch directory,
 # runs it and removes the scratch directory.
+# VERIF_REPO=<dir> checks a scratch copy of the repository instead (used to
+# demonstrate detection on deliberately broken trees); VERIF_OUT=<dir> then
+# receives evidence/ and replays/ so that /verif's own files stay untouched.
 set -u
 export GOFLAGS=-mod=mod GOPROXY=off GOSUMDB=off GOTOOLCHAIN=local
 V=${VERIF_DIR:-/verif}
@@ -10,12 +13,16 @@ R=${VERIF_REPO:-/repo}
 T=$(mktemp -d "${TMPDIR:-/var/tmp}/verif-XXXXXX") || exit 3
 trap 'rm -rf "$T"' EXIT INT TERM
 cd "$V/zv" || exit 3
+MODFLAG=""
+if [ "$R" != /repo ]; then
+  sed "s|=> /repo\$|=> $R|" go.mod >"$T/go.mod" && cp go.sum "$T/go.sum"
+  MODFLAG="-modfile=$T/go.mod"
+fi
 (go build -o "$T/overlaygen" ./cmd/overlaygen && "$T/overlaygen" -repo "$R" -verif "$V" -out "$T" >"$T/overlaygen.log" 2>&1) || { cat "$T/overlaygen.log" 2>/dev/null; echo "HARNESS-ERROR: overlay generation failed"; exit 3; }
-if ! go build -tags verif -overlay "$T/overlay.json" -o "$T/verifcheck" ./cmd/verifcheck >"$T/build.log" 2>&1; then
+if ! go build $MODFLAG -tags verif -overlay "$T/overlay.json" -o "$T/verifcheck" ./cmd/verifcheck >"$T/build.log" 2>&1; then
   cat "$T/build.log"
   echo "HARNESS-ERROR: build of the checker against $R failed"
   exit 3
 fi
 VERIF_DIR="$V" "$T/verifcheck" "$@"
-rc=$?
-exit $rc
+exit $?
